@@ -209,9 +209,9 @@ def _producer(eng, case, front):
         mode = eng.choice(2, 'corrupt')
         if mode == 1:
             k = eng.choice(32, 'corrupt_pos') if case.get('all_positions') else [0, 15, 31][eng.choice(3, 'corrupt_pos')]
-            nv = eng.int('corrupt_val', 0, 255)
-            eng.assume(nv != w[dpos + k])
-            w[dpos + k] = nv
+            # any different value, expressed relative to the (possibly ideal-function) digest byte
+            delta = eng.int('corrupt_delta', 1, 255)
+            w[dpos + k] = (w[dpos + k] + delta) % 256
             digest_ok = False
     pkt = bwrap(w)
 
